@@ -46,21 +46,25 @@ Closure(n, E) ==
   ELSE LET F[k \in 0..Log2Ceil(n)] == IF k = 0 THEN E ELSE LET p == F[k-1] IN p \cup Compose(p, p)
        IN  F[Log2Ceil(n)]
 
+(* cheaper: for subsets of 1..n *)
+Ascending(n, S) ==
+  LET F[k \in 0..n] == IF k = 0 THEN <<>>
+                       ELSE IF k \in S THEN Append(F[k-1], k) ELSE F[k-1]
+  IN F[n]
+
+
 (***************************************************************************)
 (* For larger graphs: Kahn levels decide acyclicity, and for a DAG the      *)
 (* descendants are computed in one pass over a topological order            *)
 (* (children first), which is linear in the size of the result.             *)
 (***************************************************************************)
 KahnOrder(n, E) ==       \* a sequence of the nodes that can be removed source-first; all n of them iff E is acyclic
-  LET F[k \in 0..n] ==
+  LET PMap == [f \in 1..n |-> Preds(E, f)]         \* computed once
+      F[k \in 0..n] ==
         IF k = 0 THEN <<>>
         ELSE LET p == F[k-1]  done == Range(p)
-                 nxt == { f \in (1..n) \ done : Preds(E, f) \subseteq done }
-             IN  IF nxt = {} THEN p
-                 ELSE p \o (LET G[T \in SUBSET nxt] == IF T = {} THEN <<>>
-                                                        ELSE LET m == CHOOSE x \in T : \A y \in T : x <= y
-                                                             IN <<m>> \o G[T \ {m}]
-                            IN G[nxt])
+                 nxt == IF Len(p) = n THEN {} ELSE { f \in (1..n) \ done : PMap[f] \subseteq done }
+             IN  IF nxt = {} THEN p ELSE p \o Ascending(n, nxt)
   IN F[n]
 
 IsDag(n, E) == Len(KahnOrder(n, E)) = n
@@ -76,13 +80,16 @@ DescMap(n, E, order) ==
              IN  [g \in (DOMAIN prev) \cup {f} |-> IF g = f THEN d ELSE prev[g]]
   IN F[n]
 
-ClosureDag(n, E) ==
-  LET D == DescMap(n, E, KahnOrder(n, E)) IN UNION { { <<a, b>> : b \in D[a] } : a \in 1..n }
+(***************************************************************************)
+(* REACHABILITY MAPS.  Everywhere else "the closure" of an edge set is a    *)
+(* function  node |-> set of nodes reachable from it by one or more edges   *)
+(* (membership in a small set, instead of searching a large set of pairs).  *)
+(***************************************************************************)
+Reach(n, E) == [a \in 1..n |-> ReachFrom(n, E, a)]
+(* the cheap way when E is a DAG *)
+ReachAny(n, E) == IF n > 12 /\ IsDag(n, E) THEN DescMap(n, E, KahnOrder(n, E)) ELSE Reach(n, E)
 
-(* closure for any relation over 1..n: the cheap way when it is a DAG *)
-ClosureAny(n, E) == IF n > 12 /\ IsDag(n, E) THEN ClosureDag(n, E) ELSE Closure(n, E)
-
-HasPath(C, a, b) == <<a, b>> \in C
+HasPath(R, a, b) == b \in R[a]
 
 Acyclic(n, E) == \A a \in 1..n : a \notin ReachFrom(n, E, a)
 
@@ -140,11 +147,5 @@ SortedSeq(S) ==
         ELSE LET m == CHOOSE x \in T : \A y \in T : x <= y
              IN  <<m>> \o F[T \ {m}]
   IN F[S]
-
-(* cheaper: for subsets of 1..n *)
-Ascending(n, S) ==
-  LET F[k \in 0..n] == IF k = 0 THEN <<>>
-                       ELSE IF k \in S THEN Append(F[k-1], k) ELSE F[k-1]
-  IN F[n]
 
 =============================================================================
